@@ -373,8 +373,8 @@ def case_batch(case, wctx):
 
 def run(ctx):
     quick = ctx.tier == "quick"
-    n = 195 if quick else 8000
-    per = 13 if quick else 125
+    n = 195 if quick else 2500
+    per = 13 if quick else 80
     ctx.rule = ("21 directed corner cases + generated (path_template, referenced inputs, keep_extension, outarg value) cases, each run for real "
                 "twice in fresh cache roots with the touchfile fake; non-trivial = the outarg is not switched off; "
                 "distinct = distinct case specs")
